@@ -50,6 +50,8 @@ CONSTS = [
     ("MAX_NUM_TRACKS", "libxcm/tp/tcp/tconnect.c", None),
     ("XCM_TP_NUM_BYTESTREAM_CNTS", "libxcm/tp/common/xcm_tp.h", None),
     ("XCM_TP_NUM_MESSAGING_CNTS", "libxcm/tp/common/xcm_tp.h", None),
+    ("MAX_SKIPPED_CTL_CALLS", "libxcm/tp/common/xcm_tp.c", None),
+    ("MAX_WAKEUPS_PER_CTL_CHECK", "libxcm/tp/common/xcm_tp.c", None),
 ]
 
 # (lean name, header to #include, C expression)
